@@ -103,21 +103,24 @@ impl StructArrayExt for StructArray {
             .child_data()
             .iter()
             .map(|c| {
-                if let Some(child_validity) = c.nulls() {
-                    let new_validity = child_validity.inner() & validity.inner();
+                let new_validity = if let Some(child_validity) = c.nulls() {
+                    NullBuffer::from(child_validity.inner() & validity.inner())
+                } else {
+                    validity.clone()
+                };
+                // SAFETY: only the validity changes and it has the length of the child.  (The
+                // checked `build` would reject a validity bitmap shorter than `offset + len`
+                // bits for a child with a data offset, e.g. a sliced BooleanArray.)
+                unsafe {
                     c.clone()
                         .into_builder()
-                        .nulls(Some(NullBuffer::from(new_validity)))
-                        .build()
-                } else {
-                    Ok(c.clone()
-                        .into_builder()
-                        .nulls(Some(validity.clone()))
-                        .build()?)
+                        .nulls(Some(new_validity))
+                        .build_unchecked()
                 }
             })
-            .collect::<Result<Vec<_>, _>>()?;
-        let arr = make_array(data.into_builder().child_data(children).build()?);
+            .collect::<Vec<_>>();
+        // SAFETY: the children keep their type and length (see above)
+        let arr = make_array(unsafe { data.into_builder().child_data(children).build_unchecked() });
         Ok(arr.as_struct().clone())
     }
 }
@@ -129,6 +132,33 @@ mod tests {
     use std::sync::Arc;
 
     use crate::r#struct::StructArrayExt;
+
+    #[test]
+    fn test_pushdown_nulls_sliced_boolean_child() {
+        // a sliced BooleanArray keeps a data offset
+        let flags = arrow_array::BooleanArray::from(vec![
+            Some(true),
+            Some(false),
+            Some(true),
+            None,
+            Some(false),
+            Some(false),
+            Some(true),
+            Some(true),
+            Some(false),
+        ]);
+        let struct_array = StructArray::new(
+            Fields::from(vec![Field::new("flag", DataType::Boolean, true)]),
+            vec![Arc::new(flags.slice(3, 6))],
+            Some(vec![true, false, true, true, false, true].into()),
+        );
+        let pushed = struct_array.pushdown_nulls().unwrap();
+        let flag = pushed.column(0);
+        assert_eq!(flag.null_count(), 3);
+        assert!(flag.is_null(0) && flag.is_null(1) && flag.is_null(4));
+        assert_eq!(flag.as_boolean().value(5), false);
+        assert_eq!(flag.as_boolean().value(3), true);
+    }
 
     #[test]
     fn test_normalize_slicing_no_offset() {
